@@ -6,6 +6,7 @@ import (
 	"crypto/sha256"
 	"crypto/x509"
 	"fmt"
+	"strings"
 	"testing"
 
 	"pgregory.net/rapid"
@@ -61,20 +62,60 @@ func signedBase(t *rapid.T) ([]byte, gen.Identity, string) {
 	o.Table = false
 	img := gen.PEImage(o).Draw(t, "img")
 	id := rapid.SampledFrom(gen.FixedIdents()[:4]).Draw(t, "signer")
+	two := rapid.IntRange(0, 3).Draw(t, "twosigs") == 0
+	first := gen.FixedIdents()[(id.Key+1)%4]
+	// a third of the bases come from a producer that shares nothing with the library
+	if rapid.IntRange(0, 2).Draw(t, "producer") == 0 {
+		return referenceSigned(t, img, id, first, two, "reference-signed generated image")
+	}
+	// A library that cannot parse or sign a well-formed image is the business of C01/C03;
+	// here the base then comes from the reference producer, so that verification stays under test.
 	bin, err := authenticode.Parse(bytes.NewReader(img))
 	if err != nil {
-		t.Fatalf("Parse of a generated image: %v", err)
+		return referenceSigned(t, img, id, first, two, "reference-signed generated image (library Parse refused it)")
 	}
-	if rapid.IntRange(0, 3).Draw(t, "twosigs") == 0 {
-		first := gen.FixedIdents()[(id.Key+1)%4]
-		if _, err := bin.Sign(first.Priv(), first.Cert); err != nil {
-			t.Fatalf("Sign: %v", err)
+	var sigs [][]byte
+	if two {
+		sig, err := bin.Sign(first.Priv(), first.Cert)
+		if err != nil {
+			return referenceSigned(t, img, id, first, two, "reference-signed generated image (library Sign refused it)")
+		}
+		sigs = append(sigs, sig)
+	}
+	sig, err := bin.Sign(id.Priv(), id.Cert)
+	if err != nil {
+		return referenceSigned(t, img, id, first, two, "reference-signed generated image (library Sign refused it)")
+	}
+	sigs = append(sigs, sig)
+	if rapid.IntRange(0, 3).Draw(t, "serialiser") == 0 {
+		return bin.Bytes(), id, "library-signed generated image"
+	}
+	// the blobs the library returned, attached by the reference (what a tool does that stores detached signatures)
+	out, err := acode.WithTable(img, acode.BuildTable(sigs))
+	if err != nil {
+		t.Fatalf("reference WithTable: %v", err)
+	}
+	return out, id, "library-signed generated image, table attached by the reference"
+}
+
+func referenceSigned(t *rapid.T, img []byte, id, first gen.Identity, two bool, base string) ([]byte, gen.Identity, string) {
+	opts := func(label string) acode.SignOpts {
+		o := acode.SignOpts{NoCerts: rapid.IntRange(0, 3).Draw(t, label+"nocerts") == 0, ObsoleteBMP: rapid.Bool().Draw(t, label+"bmp")}
+		if rapid.Bool().Draw(t, label+"time") {
+			o.SigningTime = []byte("240102030405Z")
+		}
+		return o
+	}
+	var err error
+	if two {
+		if img, err = acode.Sign(img, first.Priv(), first.Cert, opts("first")); err != nil {
+			t.Fatalf("reference signer: %v", err)
 		}
 	}
-	if _, err := bin.Sign(id.Priv(), id.Cert); err != nil {
-		t.Fatalf("Sign: %v", err)
+	if img, err = acode.Sign(img, id.Priv(), id.Cert, opts("")); err != nil {
+		t.Fatalf("reference signer: %v", err)
 	}
-	return bin.Bytes(), id, "library-signed generated image"
+	return img, id, base
 }
 
 // coveredPositions returns the offsets of the signed image that the hash covers.
@@ -188,8 +229,13 @@ func genCase(t *rapid.T) Case {
 						in = append(in, q)
 					}
 				}
-				if rapid.Bool().Draw(t, "boundary") && len(in) > 0 {
+				where := rapid.IntRange(0, 3).Draw(t, "where")
+				ddOff := l.DD4Off - 32
+				if where <= 1 && len(in) > 0 {
 					p = rapid.SampledFrom(in).Draw(t, "bpos")
+				} else if q := ddOff + rapid.IntRange(-64, 8*int(l.NumDirs)+7).Draw(t, "ddpos"); where == 2 && q >= 0 && q < len(b) && (q < l.DD4Off || q >= l.DD4Off+8) {
+					// somewhere in or just around the data-directory array, outside the certificate-table entry
+					p = q
 				} else {
 					p = cp[rapid.IntRange(0, len(cp)-1).Draw(t, "cpos")]
 				}
@@ -214,8 +260,9 @@ func genCase(t *rapid.T) Case {
 		o.Table = false
 		victim := gen.PEImage(o).Draw(t, "victim")
 		es, _, terr := acode.Table(img)
-		if terr != nil {
-			t.Fatalf("base table: %v", terr)
+		if terr != nil || len(es) == 0 {
+			err = fmt.Errorf("base without a readable table: %v", terr)
+			break
 		}
 		var blobs [][]byte
 		for _, e := range es {
@@ -232,7 +279,8 @@ func genCase(t *rapid.T) Case {
 	case "blob_mutation":
 		es, _, terr := acode.Table(img)
 		if terr != nil || len(es) == 0 {
-			t.Fatalf("base table: %v", terr)
+			err = fmt.Errorf("base without a readable table: %v", terr)
+			break
 		}
 		idx := rapid.IntRange(0, len(es)-1).Draw(t, "entry")
 		env := gen.MutEnv{OtherCert: other.Cert.Raw, OtherIssuer: other.Cert.RawIssuer, AltKey: gen.Keys()[alt], NewContent: gen.SizedBytes(40, 0, 32).Draw(t, "nc")}
@@ -359,6 +407,12 @@ func genCase(t *rapid.T) Case {
 			t.Fatalf("twin: %v", terr)
 		}
 		c.Role, c.Cert = "twin", tw.Cert.Raw
+	case 2:
+		at, terr := gen.AlienTwin(signer, rapid.IntRange(0, 2).Draw(t, "alien"))
+		if terr != nil {
+			t.Fatalf("alien twin: %v", terr)
+		}
+		c.Role, c.Cert = "twin_without_rsa_key", at.Raw
 	default:
 		c.Role, c.Cert = "signer", signer.Cert.Raw
 	}
@@ -404,6 +458,16 @@ func checkCase(c Case) error {
 	}
 	hx.Class("class/" + short)
 	hx.Class("role/" + c.Role)
+	switch {
+	case strings.HasPrefix(c.Base, "fixture:"):
+		hx.Class("base/sbsign fixture")
+	case strings.Contains(c.Base, "refused"):
+		hx.Class("base/reference-signed because the library refused to sign")
+	case strings.HasPrefix(c.Base, "reference-signed"):
+		hx.Class("base/reference-signed")
+	default:
+		hx.Class("base/library-signed")
+	}
 	refOK, why := acode.VerifyImage(img, cert)
 	// non-trivial: a derived pair where some signature names the verifying certificate
 	if c.Class != "none" {
@@ -430,7 +494,7 @@ func checkCase(c Case) error {
 	bin, err := authenticode.Parse(bytes.NewReader(img))
 	if err != nil {
 		hx.Class("lib_parse_error")
-		return nil
+		return appendRoute(c, img, cert)
 	}
 	if len(c.Orig) > 0 {
 		// another image (the untampered original) is parsed while the derived one is alive
@@ -459,6 +523,9 @@ func checkCase(c Case) error {
 	if !bytes.Equal(img, []byte(c.Img)) {
 		return fmt.Errorf("verification modified the image bytes handed to Parse")
 	}
+	if err := appendRoute(c, img, cert); err != nil {
+		return err
+	}
 	if ok && verr == nil {
 		hx.Class("lib_accepts/" + short)
 		if !refOK {
@@ -469,6 +536,36 @@ func checkCase(c Case) error {
 		if refOK && c.Class == "none" && c.Role == "signer" {
 			// completeness on honest pairs is C03's subject; count it here so that a vacuous run is visible
 			hx.Class("honest_pair_rejected_by_library")
+		}
+	}
+	return nil
+}
+
+// appendRoute checks the same signed image reached through the other route the API offers: the image without
+// its table is parsed and the signature blobs are attached to that object with AppendSignature (how a detached
+// signature is put onto an image), then the object is asked without being serialised in between.
+func appendRoute(c Case, img []byte, cert *x509.Certificate) error {
+	if es, _, terr := acode.Table(img); terr == nil && len(es) > 0 {
+		if bare, serr := acode.StripTable(img); serr == nil {
+			if b2, perr := authenticode.Parse(bytes.NewReader(bare)); perr == nil {
+				var blobs [][]byte
+				appended := true
+				for _, e := range es {
+					blobs = append(blobs, e.Blob)
+					if b2.AppendSignature(append([]byte{}, e.Blob...)) != nil {
+						appended = false
+					}
+				}
+				if equiv, eerr := acode.WithTable(bare, acode.BuildTable(blobs)); eerr == nil && appended {
+					hx.Class("route/parse_bare_then_append_blobs")
+					ok2, err2 := b2.Verify(cert)
+					if ok2 && err2 == nil {
+						if ref2, why2 := acode.VerifyImage(equiv, cert); !ref2 {
+							return fmt.Errorf("Verify reports success on an object made by Parse of the bare image + AppendSignature of the blobs (class %s, base %s, verifying certificate: %s) although the reference rejects that image: %s", c.Class, c.Base, c.Role, why2)
+						}
+					}
+				}
+			}
 		}
 	}
 	return nil
@@ -517,6 +614,23 @@ func TestC02Pinned(t *testing.T) {
 	}
 	if n == 0 {
 		t.Fatalf("ORACLE-SELFCHECK-FAIL no sbsign fixture accepted by the reference")
+	}
+	// the reference producer makes signatures the reference predicate accepts for the signer only
+	o := gen.SmallPE
+	o.Table = false
+	for i := 0; i < 8; i++ {
+		img := gen.PEImage(o).Example(i)
+		a, b := gen.FixedIdents()[0], gen.FixedIdents()[1]
+		signed, err := acode.Sign(img, a.Priv(), a.Cert, acode.SignOpts{ObsoleteBMP: i%2 == 0, NoCerts: i%3 == 0})
+		if err != nil {
+			t.Fatalf("ORACLE-SELFCHECK-FAIL reference signer: %v", err)
+		}
+		if ok, why := acode.VerifyImage(signed, a.Cert); !ok {
+			t.Fatalf("ORACLE-SELFCHECK-FAIL reference rejects a reference-signed image: %s", why)
+		}
+		if ok, _ := acode.VerifyImage(signed, b.Cert); ok {
+			t.Fatalf("ORACLE-SELFCHECK-FAIL reference accepts a reference-signed image under another certificate")
+		}
 	}
 	fmt.Printf("ORACLE-SELFCHECK-OK reference image verification accepts %d sbsign fixtures and rejects their tampered / re-targeted / digest-rewritten variants\n", n)
 }
